@@ -13,29 +13,48 @@ _GEN = re.compile(r"::<")
 
 
 def strip_generics(p):
-    """Remove `::<...>` turbofish groups and `<...>` after type names (balanced)."""
+    """Remove generic argument lists (`::<..>` and `Type<..>`), keeping qualified-self paths
+    `<T as Trait>` (with their inner generics stripped)."""
     out = []
     i = 0
     n = len(p)
     while i < n:
-        if p.startswith("::<", i):
-            # skip balanced
+        c = p[i]
+        if c == "<":
+            # find matching '>'
             depth = 0
-            j = i + 2
+            j = i
             while j < n:
                 if p[j] == "<":
                     depth += 1
-                elif p[j] == ">":
-                    if j > 0 and p[j - 1] == "-":
-                        pass
-                    else:
-                        depth -= 1
-                        if depth == 0:
-                            break
+                elif p[j] == ">" and not (j > 0 and p[j - 1] == "-"):
+                    depth -= 1
+                    if depth == 0:
+                        break
                 j += 1
+            inner = p[i + 1:j]
+            # qualified self path?  top-level " as "
+            d = 0
+            is_q = False
+            for k in range(len(inner)):
+                if inner[k] == "<":
+                    d += 1
+                elif inner[k] == ">" and not (k > 0 and inner[k - 1] == "-"):
+                    d -= 1
+                elif d == 0 and inner.startswith(" as ", k):
+                    is_q = True
+                    break
+            at_start = (i == 0) or p[i - 1] in ":( ,&[" and not (i >= 2 and p[i - 2:i] == "::" and out and out[-1] == ":" and False)
+            if is_q and (i == 0 or p[i - 2:i] == "::" or p[i - 1] in "( ,&["):
+                out.append("<" + strip_generics(inner) + ">")
+            else:
+                # generic args: drop, also drop a preceding '::'
+                if len(out) >= 2 and out[-1] == ":" and out[-2] == ":":
+                    out.pop()
+                    out.pop()
             i = j + 1
             continue
-        out.append(p[i])
+        out.append(c)
         i += 1
     return "".join(out)
 
